@@ -11,7 +11,8 @@
    yet (they need the Coq `Spec.decode` of C04, which is another file). *)
 From Coq Require Import List NArith String.
 From Wbxml Require Import Model.Codec Model.TablesDefs Model.EncWbxml Model.TreeNorm Proofs.EncWbxmlProofs Proofs.EncWbxmlSerialize Proofs.EncWbxmlDenote Proofs.EncWbxmlAbs Proofs.EncWbxmlStrict2 Proofs.EncWbxmlDenote2
-     Model.EncWbxmlEvents Proofs.EncWbxmlTblOk Proofs.EncWbxmlDenote3 Proofs.EncWbxmlAbs4 Proofs.EncWbxmlDenote4 Proofs.EncWbxmlAbs5 Model.EncWbxmlTables Proofs.EncWbxmlDenote5 Proofs.EncWbxmlCanon Proofs.EncWbxmlDenoteWv.
+     Model.EncWbxmlEvents Proofs.EncWbxmlTblOk Proofs.EncWbxmlDenote3 Proofs.EncWbxmlAbs4 Proofs.EncWbxmlDenote4 Proofs.EncWbxmlAbs5 Model.EncWbxmlTables Proofs.EncWbxmlDenote5 Proofs.EncWbxmlCanon Proofs.EncWbxmlDenoteWv
+     Proofs.EncWbxmlDenote6 Proofs.EncWbxmlClass6 Proofs.EncWbxmlClasses Proofs.EncWbxmlUnion Proofs.EncWbxmlCanon2.
 From Wbxml Require Model.Parser Model.Spec.
 Import ListNotations.
 Local Open Scope N_scope.
@@ -577,3 +578,93 @@ Theorem C06_embedded_document_is_strict_serialization : forall tbl e par lid l' 
     (len doc < 4294967296 -> exists d', doc = Spec.serialize d' /\ Spec.strict_doc d' = true).
 Proof. exact embedded_tree_is_document. Qed.
 Print Assumptions C06_embedded_document_is_strict_serialization.
+
+(* ===================================================================================================================== *)
+(* THE UNION (round 7): ONE statement for every language.  The language selects its class (class_of): Wireless Village,
+   DRMREL, SyncML, OTA settings, or "all others" (SI and EMN included).  The fragment predicate tree_ok6 is the disjunction
+   of everything proved:
+     elements   token tags that are rows of L (5..63) or literal names unknown to L; depth <= 1000;
+     attributes aok_u: rows of L whose value prefix (if any) starts the value, or literal names; %Datetime attributes (SI, EMN)
+                with a value on which canon_dt is defined; the OTA icon VALUE with a non-empty base64 payload;
+     text       tok_u: octets 1..255; byte arrays of binary-flagged elements any octets < 256; Wireless-Village first-child
+                text of integer / date elements with a defined canonical form; DRMREL <ds:KeyValue> as first child with a
+                non-empty payload;
+     CDATA      sections with text children, in a token element that is not binary-flagged and has no typed-content rule
+                (cok_plain): ONE OPAQUE with the text exactly (in SyncML a text that is exactly LF becomes CR LF);
+     embedded   trees in such an element (eok_plain): ONE OPAQUE with the embedded document's octets (emb_doc).
+   Conclusion: bytes = serialize d, strict d, Spec.decode_lang bytes = evs, and evs = doc_events6 modulo merge_chars, where
+   the events carry the CANONICAL forms: canon_dt (idempotent), canon_wv_int (idempotent), canon_wv_date, canon_b64
+   (idempotent), mime_of in MetInf <Type> (idempotent), the CR LF rule (idempotent).
+   STILL EXCLUDED, precisely: token-named attributes whose value does not start with the row's prefix (only API-built
+   trees have them; the encoder writes a literal), NUL in non-binary text and in names, PIs (the encoder refuses them),
+   CDATA / embedded trees under literal, binary-flagged or typed elements, Wireless-Village / DRMREL typed text that is not
+   the first child (the decoder's rule for such an OPAQUE is outside the specification), canon_wv_date idempotence. *)
+Theorem C06_strict_decoding_yields_normalised_source : forall tblb TBL L o tag attrs ch bs,
+  let e := enc_env (to_blang L) o in
+  vals_ok L = true -> side_u L = true -> tag_tbl_ok e = true ->
+  tree_ok6 L (aok_u L) (tok_u L (o_keep_ws o)) (cok_plain L) (eok_plain tblb e L) (is_syncml (e_lang e)) 0 true None (NElt tag attrs ch) = true ->
+  find (fun x => l_id x =? l_id L) TBL = Some L ->
+  o_version o < 4 -> header_public_id e < 4294967296 -> header_public_id e <> 0 ->
+  (match header_pid e with Some p => okb p = true | None => True end) ->
+  len bs < 4294967296 ->
+  enc_wbxml tblb (to_blang L) o [NElt tag attrs ch] = EOk bs ->
+  exists d evs, bs = Spec.serialize d /\ Spec.strict_doc d = true /\
+            Spec.denote_with TBL (Some L) d = Some evs /\ Spec.decode_lang TBL (l_id L) bs = Some evs /\
+            merge_chars evs = merge_chars (doc_events6 tblb L e (acan_u L) (tev_u L e (o_keep_ws o)) (NElt tag attrs ch)).
+Proof. exact strict_decode_union. Qed.
+Print Assumptions C06_strict_decoding_yields_normalised_source.
+
+(* (b) the octets reported for an embedded tree decode, with the embedded language, to the events of the embedded tree *)
+Theorem C06_embedded_document_decodes_to_embedded_tree : forall tblb TBL (e : env) lid L' tag attrs ch,
+  e_ignore_empty e = e_remove_blanks e ->
+  find_lang tblb lid = Some (to_blang L') ->
+  let o' := embedded_opts e in let e' := enc_env (to_blang L') o' in
+  vals_ok L' = true -> side_u L' = true -> tag_tbl_ok e' = true ->
+  tree_ok6 L' (aok_u L') (tok_u L' (o_keep_ws o')) (cok_plain L') (eok_plain tblb e' L') (is_syncml (e_lang e')) 0 true None (NElt tag attrs ch) = true ->
+  find (fun x => l_id x =? l_id L') TBL = Some L' ->
+  e_version e < 4 -> header_public_id e' < 4294967296 -> header_public_id e' <> 0 ->
+  (match header_pid e' with Some p => okb p = true | None => True end) ->
+  emb_doc tblb e lid [NElt tag attrs ch] <> [] -> len (emb_doc tblb e lid [NElt tag attrs ch]) < 4294967296 ->
+  exists d' evs, emb_doc tblb e lid [NElt tag attrs ch] = Spec.serialize d' /\ Spec.strict_doc d' = true /\
+     Spec.decode_lang TBL (l_id L') (emb_doc tblb e lid [NElt tag attrs ch]) = Some evs /\
+     merge_chars evs = merge_chars (doc_events6 tblb L' e' (acan_u L') (tev_u L' e' (o_keep_ws o')) (NElt tag attrs ch)).
+Proof. exact embedded_doc_decodes. Qed.
+Print Assumptions C06_embedded_document_decodes_to_embedded_tree.
+
+(* the canonical forms are normal forms *)
+Theorem C06_canon_syncml_mime_idempotent : forall e par buf, mime_of e par (mime_of e par buf) = mime_of e par buf.
+Proof. exact mime_of_idem. Qed.
+Print Assumptions C06_canon_syncml_mime_idempotent.
+Theorem C06_canon_cdata_crlf_idempotent : forall sy c, cdata_piece sy (NText (cdata_piece sy (NText c))) = cdata_piece sy (NText c).
+Proof. exact cdata_piece_idem. Qed.
+Print Assumptions C06_canon_cdata_crlf_idempotent.
+Theorem C06_canon_wv_integer_idempotent : forall v o, canon_wv_int v = Some o -> canon_wv_int o = Some o.
+Proof. exact canon_wv_int_idem. Qed.
+Print Assumptions C06_canon_wv_integer_idempotent.
+Theorem C06_canon_base64_idempotent : forall v, canon_b64 (canon_b64 v) = canon_b64 v.
+Proof. exact canon_b64_idem. Qed.
+Print Assumptions C06_canon_base64_idempotent.
+
+(* SyncML: <S><Type>application/vnd.syncml-devinf+xml</Type><Data><![CDATA[LF]]></Data></S> (Type on page 1) is decoded as
+   ...devinf+wbxml and CR LF *)
+Example C06_syncml_example :
+  let L := mk_lang 2201 4050 None None None (Some [mk_tag "S"%string 0 5 0; mk_tag "Data"%string 0 15 0; mk_tag "Type"%string 1 19 0]) None None None None in
+  let o := mk_opts 2 false false false in
+  let t := NElt (TagTok 0 5 0 (Parser.B "S")) []
+                [NElt (TagTok 1 19 0 (Parser.B "Type")) [] [NText (Parser.B "application/vnd.syncml-devinf+xml")];
+                 NElt (TagTok 0 15 0 (Parser.B "Data")) [] [NCData [NText [10]]]] in
+  let e := enc_env (to_blang L) o in
+  side_u L = true /\ tag_tbl_ok e = true /\
+  tree_ok6 L (aok_u L) (tok_u L false) (cok_plain L) (eok_plain [] e L) (is_syncml (e_lang e)) 0 true None t = true /\
+  exists bs, enc_wbxml [] (to_blang L) o [t] = EOk bs /\
+    Spec.decode_lang [L] 2201 bs = Some (doc_events6 [] L e (acan_u L) (tev_u L e false) t) /\
+    doc_events6 [] L e (acan_u L) (tev_u L e false) t
+      = [Parser.EvStartDoc 106 2201; Parser.EvStartElt (Parser.TagTok 0 5 (Parser.B "S")) [];
+         Parser.EvStartElt (Parser.TagTok 1 19 (Parser.B "Type")) []; Parser.EvChars (Parser.B "application/vnd.syncml-devinf+wbxml");
+         Parser.EvEndElt (Parser.TagTok 1 19 (Parser.B "Type"));
+         Parser.EvStartElt (Parser.TagTok 0 15 (Parser.B "Data")) []; Parser.EvChars [13; 10]; Parser.EvEndElt (Parser.TagTok 0 15 (Parser.B "Data"));
+         Parser.EvEndElt (Parser.TagTok 0 5 (Parser.B "S")); Parser.EvEndDoc].
+Proof.
+  cbv zeta. split; [vm_compute; reflexivity|]. split; [vm_compute; reflexivity|]. split; [vm_compute; reflexivity|].
+  eexists. split; [vm_compute; reflexivity|]. split; vm_compute; reflexivity.
+Qed.
